@@ -94,11 +94,14 @@ def check(ctx):
     sites = sort_sites(m)
     n_scope = 0
     for f, c in sites:
-        if not scope_derived(m, f, c):
+        key = arg(c, None, "key")
+        it0 = c.args[0] if c.args else None
+        if key is None and isinstance(it0, (ast.GeneratorExp, ast.ListComp)) and totality(m, f, it0.elt, set()) == "total":
             ctx.ob("C20.R1", f"{f.short}/non-scope-ordering", True, loc(f, c), "ordering of numbers/strings only", norm(c)[:80])
             continue
+        if key is None and not scope_derived(m, f, c):
+            raise AnalysisError(f"{f.qualname}: ordering `{norm(c)[:60]}` without key over elements of unknown kind")
         n_scope += 1
-        key = arg(c, None, "key")
         if key is None:
             verdict = "raw"
         else:
@@ -141,6 +144,8 @@ def check(ctx):
     users = [f for f in m.funcs.values() if f.module.name.startswith("uberjob.progress") and
              any(g.name == "sorted_scope_items" for c in f.own_calls() for g in m.callee_funcs(f, c))]
     ctx.floor("C20.R1", "renderers using the shared scope ordering", len(users), 3)
+    ctx.run(rule_observer_instance_state, "C20.R2")
+    ctx.run(rule_widget_max_before_value, "C20.R2")
     # ---------------------------------------------------------------- R2
     spo = m.one_class("SimpleProgressObserver", "OBSERVER")
     ut = [tg for (c, call, tg) in m.thread_targets if c.cls is spo]
@@ -287,3 +292,49 @@ def path_guarded(f, call, root):
             return True
         p = f.module.parent.get(p)
     return False
+
+
+def rule_observer_instance_state(ctx, rid):
+    """Observer classes keep their state per instance: no mutable containers as class attributes."""
+    m = ctx.model
+    n = 0
+    for cls in m.classes.values():
+        if not cls.module.name.startswith("uberjob.progress"):
+            continue
+        for nm, e in cls.class_assigns.items():
+            n += 1
+            mutable = isinstance(e, (ast.List, ast.Dict, ast.Set, ast.ListComp, ast.DictComp, ast.SetComp)) or (
+                isinstance(e, ast.Call) and isinstance(e.func, ast.Name) and e.func.id in ("set", "list", "dict", "defaultdict", "deque", "Counter"))
+            ctx.ob(rid, f"{cls.name}.{nm}", not mutable, f"{cls.module.relpath}:{e.lineno}",
+                   "class attribute is immutable" if not mutable else
+                   f"`{nm}` is a mutable class attribute shared by every observer in the process: state from one run leaks into the "
+                   f"rendering of the next (its final counts may never be printed)", norm(e)[:60])
+    ctx.notes["observer_class_attributes"] = n
+
+
+def rule_widget_max_before_value(ctx, rid):
+    """IPython progress bars: `max` is assigned before `value` (the widget clamps value to the current max)."""
+    m = ctx.model
+    cls = m.one_class("IPythonProgressObserver", "IPYTHON")
+    n = 0
+    for f in cls.methods.values():
+        stores = [(nd.lineno, norm(nd.targets[0].value), nd.targets[0].attr) for nd in f.own_nodes()
+                  if isinstance(nd, ast.Assign) and isinstance(nd.targets[0], ast.Attribute) and nd.targets[0].attr in ("max", "value")
+                  and "progress" in norm(nd.targets[0].value)]
+        widgets = {w for _l, w, _a in stores}
+        for w in widgets:
+            ls = {a: l for l, ww, a in stores if ww == w}
+            if "value" in ls:
+                n += 1
+                ok = "max" in ls and ls["max"] < ls["value"]
+                ctx.ob(rid, f"{f.short}/{w}", ok, f"{cls.module.relpath}:{ls['value']}",
+                       "max is set before value" if ok else
+                       "the bar's value is assigned before (or without) its max: the widget clamps it to the old max, so the last rendering "
+                       "does not show the final count")
+        for c in f.own_calls():
+            kws = [k.arg for k in c.keywords]
+            if "value" in kws and "max" in kws and kws.index("value") < kws.index("max"):
+                n += 1
+                ctx.ob(rid, f"{f.short}/helper-order", False, f"{cls.module.relpath}:{c.lineno}",
+                       "a helper assigns `value` before `max` (keyword order): the widget clamps value to the old max", norm(c)[:80])
+    ctx.floor(rid, "progress-bar value assignments", n, 1)
